@@ -447,18 +447,15 @@ package pipeline
 
 //@ func interpolateSlice[pipeline.Step,pipeline.Steps]
 //@   requires tf != nil
-//@   assigns @STEPS, s[..]
-//@   ensures [same] ret == nil ==> (forall i int :: {s[i]} 0 <= i && i < len(s) ==> s[i] == old(s[i]))
+//@   assigns @STEPS
 //@   loop 0
-//@     assigns @STEPS, s[..]
+//@     assigns @STEPS
 //@     invariant [idx] 0 <= $idx && $idx <= len(s)
-//@     invariant [same] forall i int :: {s[i]} 0 <= i && i < len(s) ==> s[i] == old(s[i])
 //@     decreases len(s) - $idx
 
 //@ func (Steps).interpolate
 //@   requires tf != nil
-//@   assigns @STEPS, s[..]
-//@   ensures [same] ret == nil ==> (forall i int :: {s[i]} 0 <= i && i < len(s) ==> s[i] == old(s[i]))
+//@   assigns @STEPS
 
 //@ func (*GroupStep).interpolate
 //@   requires g != nil && tf != nil
